@@ -348,8 +348,13 @@ func recoverAndProbe(dir string) (res string) {
 	if err := e.Put([]byte("\x01post2"), bytes.Repeat([]byte("Q"), 300)); err != nil {
 		post = "puterr"
 	}
+	// a fragmented entry (> one physical record) written after the recovery must be recoverable too
+	if err := e.Put([]byte("\x01post3"), bytes.Repeat([]byte("R"), 40000)); err != nil {
+		post = "puterr"
+	}
 	snap["\x01post1"] = "P1"
 	snap["\x01post2"] = strings.Repeat("Q", 300)
+	snap["\x01post3"] = strings.Repeat("R", 40000)
 	if err := e.Close(); err != nil {
 		post = "closeerr"
 	}
